@@ -55,17 +55,27 @@ Theorem C16_apply : forall ceq b st icp count,
   Inv b ->
   apply_search ceq b st icp count =
   match search ceq b st icp count with
-  | SAssert => None
-  | SNone => Some b
-  | SFound w c => Some (moved b w c)
+  | SNone => b
+  | SFound w c => moved b w c
   end.
 Proof. exact apply_search_spec. Qed.
 Print Assumptions C16_apply.
 
-Theorem C16_apply_keeps_text : forall ceq b st icp count b',
-  Inv b -> apply_search ceq b st icp count = Some b' -> Inv b' /\ wl b' = wl b.
+Theorem C16_apply_keeps_text : forall ceq b st icp count,
+  Inv b -> Inv (apply_search ceq b st icp count) /\ wl (apply_search ceq b st icp count) = wl b.
 Proof. exact apply_search_inv. Qed.
 Print Assumptions C16_apply_keeps_text.
+
+(* A repeat count below 1 (Meta-minus / Meta-0 prefix): no search is made -
+   nothing is found, apply_search leaves the buffer as it is,
+   get_search_position answers the current cursor.  (Before the fix: commit
+   81f6a99 this was `assert count > 0`.) *)
+Theorem C16_count_below_1 : forall ceq b st icp count,
+  count < 1 ->
+  search ceq b st icp count = SNone /\ apply_search ceq b st icp count = b /\
+  get_search_position ceq b st icp count = cur b.
+Proof. exact search_count_below_1. Qed.
+Print Assumptions C16_count_below_1.
 
 (* Forward, one search.  Either the result is in the current line, at/after
    the cursor, with no occurrence skipped in between; or nothing lies ahead in
@@ -89,7 +99,6 @@ Theorem C16_no_skip_fwd : forall ceq b st (icp : bool),
   | SNone =>
       (forall q, lo <= q -> ~ occurs ceq (sic st) (stext st) here q) /\
       forall e, In e (fwd_order (len (wl b)) (wi b)) -> absent ceq (sic st) (stext st) (entry (wl b) e)
-  | SAssert => False
   end.
 Proof. exact search_fwd_spec. Qed.
 Print Assumptions C16_no_skip_fwd.
@@ -114,7 +123,6 @@ Theorem C16_no_skip_bwd : forall ceq b st (icp : bool),
   | SNone =>
       (forall q, occurs ceq (sic st) (stext st) here q -> ~ q + m <= cur b) /\
       forall e, In e (bwd_order (len (wl b)) (wi b)) -> absent ceq (sic st) (stext st) (entry (wl b) e)
-  | SAssert => False
   end.
 Proof. exact search_bwd_spec. Qed.
 Print Assumptions C16_no_skip_bwd.
@@ -148,9 +156,10 @@ Theorem C16_complete_bwd : forall ceq b st (icp : bool),
 Proof. exact search_bwd_complete. Qed.
 Print Assumptions C16_complete_bwd.
 
-(* count = k1 + k2 is a count = k1 search followed, from its landing position,
-   by a count = k2 search (so count = k is k successive single searches); a
-   failure anywhere makes the whole search fail. *)
+(* For counts >= 1: count = k1 + k2 is a count = k1 search followed, from its
+   landing position, by a count = k2 search (so count = k is k successive
+   single searches); a failure anywhere makes the whole search fail.  Counts
+   below 1: C16_count_below_1. *)
 Theorem C16_count : forall ceq b st icp k1 k2,
   Inv b -> 0 < k1 -> 0 < k2 ->
   search ceq b st icp (k1 + k2) =
